@@ -67,6 +67,7 @@ def run(rep, tier):
         pipeline(rep, meta, sfx)
         wsguard(rep, meta, sfx)
         accum(rep, meta, sfx)
+        dropped(rep, meta, sfx)
 
 
 def generic_traversals(meta, roots, enums):
@@ -661,3 +662,65 @@ def accum(rep, meta, sfx):
                     break
     if n == 0:
         r.note("no accumulator-threading recursive helper in the optimizer")
+
+
+# ------------------------------------------------------------------ DROPPED
+
+EXPR_ENUMS = ("pest_meta::ast::Expr::", "pest_meta::optimizer::OptimizedExpr::")
+
+
+def dropped(rep, meta, sfx):
+    r = rep.rule("C05.DROPPED" + sfx, 2,
+                 "a rewrite in an optimizer pass never discards an operand unseen: a pattern over an expression variant "
+                 "that ignores a payload (`_`, `..`, or a binding that is never read) inside code that produces an "
+                 "expression changes what the matched shape means (e.g. `(!p ~ Ident(_))*` -> Skip for any rule, not "
+                 "only ANY). Predicates/visitors (bool or unit context) and diverging arms are exempt")
+    seen = 0
+    for fn in meta.bodies:
+        if not fn["path"].startswith("pest_meta::optimizer::") or fn.get("exp") or "::tests::" in fn["path"]:
+            continue
+        ctx = hirq.Ctx(fn)
+        used = set(x["id"] for x in walk(fn["body"]) if kind(x) == "Path" and x.get("res") == "local")
+        for p in walk(fn["body"]):
+            if kind(p) != "PTupleStruct" or not str(p.get("path", "")).startswith(EXPR_ENUMS):
+                continue
+            ignored = []
+            if "ddpos" in p:
+                ignored.append("..")
+            for i, q in enumerate(p.get("pats", [])):
+                qq = q
+                while kind(qq) in ("PRef", "PBox", "PDeref"):
+                    qq = qq["pat"]
+                if kind(qq) == "PWild":
+                    ignored.append("_ (payload %d)" % i)
+                elif kind(qq) == "PBind" and not qq.get("sub") and qq["id"] not in used:
+                    ignored.append("%s (never read)" % qq["name"])
+            if not ignored:
+                continue
+            seen += 1
+            variant = p["path"].split("::")[-1]
+            short = fn["path"].replace("pest_meta::optimizer::", "")
+            key = "%s:%s" % (short, variant)
+            # the code the pattern guards, and the kind of context (closure body or fn) it sits in
+            scope = None
+            cty = fn.get("output", "")
+            for (a, k, i) in ctx.ancestors(p):
+                if scope is None and a.get("k") is None and "pat" in a and "body" in a:
+                    scope = a["body"]
+                if scope is None and a.get("k") == "If" and k == "cond":
+                    scope = a["then"]
+                if a.get("k") == "Closure":
+                    cty = a["body"].get("ty", "")
+                    break
+            exempt = None
+            if scope is not None and hirq.diverges(scope) or (scope is not None and scope.get("ty") == "!"):
+                exempt = "the arm diverges"
+            elif not any(s in cty for s in ("Expr", "Rule")):
+                exempt = "predicate / visitor context (%s)" % (cty or "()")
+            r.instance(key, where(p), "ignores %s; %s" % (", ".join(ignored), exempt or "REWRITE CONTEXT"))
+            if not exempt:
+                r.violation(key, where(p),
+                            "%s matches %s but ignores %s while producing an expression: the rewrite fires for every "
+                            "value of the ignored operand" % (short, variant, ", ".join(ignored)))
+    if seen == 0:
+        r.note("no ignoring pattern found at all (the positive examples are gone)")
